@@ -1,12 +1,13 @@
 import FparserModel.Wire
 import FpDriver.Splitline
+import FpDriver.Norm
 
 /-! dispatcher: one handler per model; each handler lives in FpDriver/<Model>.lean -/
 namespace FpDriver
 open Fp.Wire
 
 def handlers : List (String → List String → Option String) :=
-  [FpDriver.Splitline.handle]
+  [FpDriver.Splitline.handle, FpDriver.Norm.handle]
 
 def dispatch (line : String) : String :=
   match fields line with
